@@ -317,18 +317,51 @@ DEC_GRAPHICS = {
 DEC_BYTE_OF = {uni: ord(alt) for alt, uni in DEC_GRAPHICS.items()}
 
 
-def ref_target_encoding(s, enc, dec_special):
-    """Expected (bytes, per-byte charset list) of encoding the str s for output: each DEC graphics
-    character becomes its alternate-charset byte tagged "0" when the DEC set is in use; every other
-    character becomes its encoding (the codec's replacement where it has none), tagged None."""
-    out = bytearray()
-    cs = []
+def ref_target_segments(s, enc, dec_special):
+    """Expected output of encoding the str s, one segment per character: (bytes, tag). A DEC graphics
+    character is its alternate-charset byte tagged "0" when the DEC set is in use; a character the
+    target encoding has is its encoding, tagged None; a character the encoding does NOT have is
+    (None, None): the statement does not say what stands in for it (see match_target_encoding)."""
+    segs = []
     for ch in s:
         if dec_special and ch in DEC_BYTE_OF:
-            out.append(DEC_BYTE_OF[ch])
-            cs.append("0")
+            segs.append((bytes([DEC_BYTE_OF[ch]]), "0"))
+            continue
+        try:
+            segs.append((ch.encode(enc), None))
+        except UnicodeEncodeError:
+            segs.append((None, None))
+    return segs
+
+
+def match_target_encoding(segs, got):
+    """Match encoded bytes against ref_target_segments. Returns (want_cs, repl): the expected per-byte
+    charset tags and the total number of "?" bytes standing in for unencodable characters -- or
+    (None, None) when the bytes are not the segments in order.
+
+    ORACLE CORRECTION (triage C11): the first form of this reference encoded with the codec's own
+    errors="replace" and so demanded exactly ONE "?" per character the target encoding lacks. The
+    statement fixes the DEC graphics bytes, the charset runs and the run-length total; it says nothing
+    about the stand-in for an unencodable character, and urwid (util._replace_keep_width, /repo dcd395a)
+    deliberately writes one "?" per screen column -- "??" for U+4E2D under latin-1 -- so that the encoded
+    text keeps the width the layout computed (the very consistency this property is about). The stand-in
+    is therefore any run of "?" bytes (tagged None like other text); its length is recorded in the check's
+    notes, not judged. No enumerated character encodes to or next to a literal "?", so the greedy match
+    below is unambiguous."""
+    pos = 0
+    cs = []
+    repl = 0
+    for b, tag in segs:
+        if b is None:
+            while pos < len(got) and got[pos] == 0x3F:
+                pos += 1
+                repl += 1
+                cs.append(None)
         else:
-            e = ch.encode(enc, "replace")
-            out += e
-            cs += [None] * len(e)
-    return bytes(out), cs
+            if got[pos : pos + len(b)] != b:
+                return None, None
+            pos += len(b)
+            cs += [tag] * len(b)
+    if pos != len(got):
+        return None, None
+    return cs, repl
